@@ -196,26 +196,33 @@ Section Fail.
   | MissingCode (hop : nat)              (* HMAC matched, failuremsg shorter than 2 bytes *)
   | Attributed (hop : nat) (code : Z) (data : bytes).
 
-  (** [process_onion_failure_inner], the loop.  State: the packet, [attribution_failed_channel.is_some()],
-      the hold times so far. *)
+  (** [process_onion_failure_inner], the attribution-data part of one iteration ("Only check
+      attribution when an attribution data failure has not yet occurred").  State: the packet,
+      [attribution_failed_channel.is_some()], the hold times so far. *)
+  Definition attribution_step (k : fkeys) (idx cnt : nat) (p : err_packet) (attr_failed : bool)
+             (hold_times : list Z) : err_packet * bool * list Z :=
+    if attr_failed then (p, attr_failed, hold_times)
+    else match e_attr p with
+         | Some a =>
+             if idx <? cnt then
+               match attr_verify a (e_data p) k (cnt - idx - 1) with
+               | Some t => (mk_err (e_data p) (Some (shift_left a)), false, hold_times ++ [t])
+               | None => (p, true, hold_times)
+               end
+             else (p, attr_failed, hold_times)
+         | None => (p, true, hold_times)
+         end.
+
+  (** [process_onion_failure_inner], the loop over the hops. *)
   Fixpoint failure_loop (keys : list fkeys) (idx cnt : nat) (p : err_packet) (attr_failed : bool)
            (hold_times : list Z) : attributed * list Z :=
     match keys with
     | [] => (NoHopMatched (e_data p), hold_times)
     | k :: tl =>
-        let p := crypt_failure_packet k p in
-        let '(p, attr_failed, hold_times) :=
-          if attr_failed then (p, attr_failed, hold_times)
-          else match e_attr p with
-               | Some a =>
-                   if idx <? cnt then
-                     match attr_verify a (e_data p) k (cnt - idx - 1) with
-                     | Some t => (mk_err (e_data p) (Some (shift_left a)), false, hold_times ++ [t])
-                     | None => (p, true, hold_times)
-                     end
-                   else (p, attr_failed, hold_times)
-               | None => (p, true, hold_times)
-               end in
+        let st := attribution_step k idx cnt (crypt_failure_packet k p) attr_failed hold_times in
+        let p := fst (fst st) in
+        let attr_failed := snd (fst st) in
+        let hold_times := snd st in
         let d := e_data p in
         if negb (bytes_eqb (hmac (fk_um k) (skipn 32 d)) (firstn 32 d)) then
           failure_loop tl (S idx) cnt p attr_failed hold_times
